@@ -1251,9 +1251,9 @@ func genC19(tier string, rng *Rng) {
 				}
 			}
 		}
-		nrand := 40
+		nrand := 120
 		if thorough {
-			nrand = 300
+			nrand = 1500
 		}
 		for k := 0; k < nrand; k++ {
 			ids := []uint32{1, 2, 3, 4, 5, 6}
@@ -1341,9 +1341,9 @@ func genC19(tier string, rng *Rng) {
 		for _, it := range items {
 			total += len(it.wire())
 		}
-		maxLen := 24
+		maxLen := 28
 		if thorough {
-			maxLen = 44
+			maxLen = 48
 		}
 		lim := total
 		if lim > maxLen {
